@@ -312,7 +312,12 @@ def r5(ctx, cls):
   seen = {}
   for ev, ex in enum_paths(ctx, dc):
     fs = FACTS(ev)
-    calls = [call_attr(e.node) for e in ev if e.kind == 'call']
+    calls = [call_attr(e.node) or (e.node.func.id if isinstance(e.node.func, ast.Name) else None) for e in ev if e.kind == 'call']
+    # the watch may be started in place: ChildrenWatch(self._zk, self._zk_path, self._on_set_changed) is what _begin_watch does
+    bw = prog.try_func(Z, 'ServerSet._begin_watch')
+    if bw is None:
+      calls = ['_begin_watch' if (c == 'ChildrenWatch' and any(e.kind == 'call' and isinstance(e.node.func, ast.Name) and e.node.func.id == 'ChildrenWatch'
+                                                               and [U(a) for a in e.node.args][:2] == ['self._zk', 'self._zk_path'] for e in ev)) else c for c in calls]
     writes = [(U(e.node.targets[0]), U(e.node.value)) for e in ev if e.kind == 'stmt' and isinstance(e.node, ast.Assign)]
     if ('%sisNone' % stat, True) in fs:
       seen['deleted'] = '_send_all_removed' in calls and ('self._watching', 'False') in writes and '_begin_watch' not in calls
